@@ -1126,6 +1126,8 @@ spif_dlinked_list_iterator_show(spif_dlinked_list_iterator_t self, spif_charptr_
 static spif_cmp_t
 spif_dlinked_list_iterator_comp(spif_dlinked_list_iterator_t self, spif_dlinked_list_iterator_t other)
 {
+    SPIF_OBJ_COMP_CHECK_NULL(self, other);
+    SPIF_OBJ_COMP_CHECK_NULL(self->subject, other->subject);
     return spif_dlinked_list_comp(self->subject, other->subject);
 }
 
